@@ -1,4 +1,3 @@
-<<<<<<< HEAD
 /- Little-endian byte-buffer lemmas for `loadLE` / `storeLE` (Model/Offset.lean): a store changes exactly its
    `n` bytes, keeps the length, and a load after it returns the stored value. Core-only. -/
 import AsmjitVerif.Model.Offset
@@ -44,47 +43,11 @@ theorem loadLE_storeLE (n : Nat) : ∀ (buf : Bytes) (pos v : Nat) (buf' : Bytes
   induction n with
   | zero => intro buf pos v buf' h; simp [loadLE, Nat.mod_one]
   | succ n ih =>
-=======
-/- little-endian store / load on byte lists: frame and round trip (used by Props/C03, Props/C04) -/
-import AsmjitVerif.Model.Offset
-namespace AsmjitVerif.Offset
-
-theorem storeLE_length (n : Nat) : ∀ (buf : Bytes) (pos v : Nat) (buf' : Bytes), storeLE buf pos v n = some buf' → buf'.length = buf.length := by
-  induction n with
-  | zero => intro buf pos v buf' h; simp [storeLE] at h; subst h; rfl
-  | succ k ih =>
-    intro buf pos v buf' h
-    simp only [storeLE] at h
-    split at h
-    · have := ih _ _ _ _ h; simpa using this
-    · cases h
-
-/-- bytes outside `[pos, pos + n)` are untouched by a store -/
-theorem storeLE_frame (n : Nat) : ∀ (buf : Bytes) (pos v : Nat) (buf' : Bytes), storeLE buf pos v n = some buf' →
-    ∀ i, (i < pos ∨ pos + n ≤ i) → buf'[i]? = buf[i]? := by
-  induction n with
-  | zero => intro buf pos v buf' h i _; simp [storeLE] at h; subst h; rfl
-  | succ k ih =>
-    intro buf pos v buf' h i hi
-    simp only [storeLE] at h
-    split at h
-    · rw [ih _ _ _ _ h i (by omega)]
-      rw [List.getElem?_set_ne (by omega)]
-    · cases h
-
-/-- a load sees exactly what was stored -/
-theorem loadLE_storeLE (n : Nat) : ∀ (buf : Bytes) (pos v : Nat) (buf' : Bytes), storeLE buf pos v n = some buf' →
-    loadLE buf' pos n = some (v % 256 ^ n) := by
-  induction n with
-  | zero => intro buf pos v buf' h; simp [loadLE, Nat.mod_one]
-  | succ k ih =>
->>>>>>> w-C03
     intro buf pos v buf' h
     simp only [storeLE] at h
     split at h
     · rename_i hlt
       have h1 := ih _ _ _ _ h
-<<<<<<< HEAD
       have h2 := storeLE_outside n _ _ _ _ h pos (Or.inl (Nat.lt_succ_self _))
       simp only [loadLE, h1, h2]
       simp only [List.getElem?_set, hlt, if_true]
@@ -108,29 +71,20 @@ theorem loadLE_lt (n : Nat) : ∀ (buf : Bytes) (pos x : Nat), loadLE buf pos n 
       rw [Nat.pow_succ]; omega
     · cases h
 
-=======
-      have h2 := storeLE_frame k _ _ _ _ h pos (by omega)
-      simp only [loadLE, h1, h2]
-      rw [List.getElem?_set_self (by simpa using hlt)]
-      simp only [BitVec.toNat_ofNat]
-      congr 1
-      have : (2:Nat) ^ 8 = 256 := by decide
-      rw [this, Nat.pow_succ, Nat.mul_comm (256 ^ k) 256, Nat.mod_mul]
-    · cases h
+/-! lemmas added for C03/C04 (sub-agent) -/
 
-/-- a load of `n` bytes is below `256 ^ n` -/
-theorem loadLE_lt (n : Nat) : ∀ (buf : Bytes) (pos v : Nat), loadLE buf pos n = some v → v < 256 ^ n := by
+
+/-- bytes outside `[pos, pos + n)` are untouched by a store -/
+theorem storeLE_frame (n : Nat) : ∀ (buf : Bytes) (pos v : Nat) (buf' : Bytes), storeLE buf pos v n = some buf' →
+    ∀ i, (i < pos ∨ pos + n ≤ i) → buf'[i]? = buf[i]? := by
   induction n with
-  | zero => intro buf pos v h; simp [loadLE] at h; omega
+  | zero => intro buf pos v buf' h i _; simp [storeLE] at h; subst h; rfl
   | succ k ih =>
-    intro buf pos v h
-    simp only [loadLE] at h
+    intro buf pos v buf' h i hi
+    simp only [storeLE] at h
     split at h
-    · rename_i b r hb hr
-      have := ih _ _ _ hr
-      have hb' := b.isLt
-      cases h
-      rw [Nat.pow_succ]; omega
+    · rw [ih _ _ _ _ h i (by omega)]
+      rw [List.getElem?_set_ne (by omega)]
     · cases h
 
 /-- loads at positions disjoint from a store are unchanged -/
@@ -143,5 +97,4 @@ theorem loadLE_storeLE_disjoint (m : Nat) : ∀ (buf : Bytes) (pos v n : Nat) (b
     simp only [loadLE]
     rw [storeLE_frame n _ _ _ _ h q (by omega), ih _ _ _ _ _ (q + 1) h (by omega)]
 
->>>>>>> w-C03
 end AsmjitVerif.Offset
